@@ -3,12 +3,13 @@
 # applies patch.diff to a fresh worktree of /repo HEAD, builds, runs the whole unedited suite, builds ferret + libs,
 # and runs demo/demo.sh <ferret> <libs> with the changed and with the clean compiler. Prints one line per step.
 D=$(readlink -f "$1"); N=$$
-WT=/tmp/sv-wt-$N; S=/tmp/sv-$N
+WT=/tmp/sv-wt-$N; WTC=/tmp/sv-wtc-$N; S=/tmp/sv-$N
 export GOFLAGS=-mod=mod GOPROXY=off
 unset GOSUMDB GOTOOLCHAIN 2>/dev/null || true
-cleanup() { git -C /repo worktree remove --force "$WT" >/dev/null 2>&1; rm -rf "$WT" "$S"; git -C /repo worktree prune; }
+cleanup() { git -C /repo worktree remove --force "$WT" >/dev/null 2>&1; git -C /repo worktree remove --force "$WTC" >/dev/null 2>&1; rm -rf "$WT" "$WTC" "$S"; git -C /repo worktree prune; }
 trap cleanup EXIT INT TERM
 git -C /repo worktree add --detach "$WT" HEAD >/dev/null 2>&1 || exit 2
+git -C /repo worktree add --detach "$WTC" HEAD >/dev/null 2>&1 || exit 2
 mk() { # $1 = tree, $2 = out
   mkdir -p "$2/bin" "$2/libs"
   (cd "$1" && go build -o "$2/bin/ferret" . ) || return 1
@@ -26,7 +27,14 @@ mk "$WT" "$S/seeded" || { echo "seeded build failed"; exit 2; }
 if [ -f "$D/demo/demo.sh" ]; then
   for which in clean seeded; do
     rm -rf "$S/demo"; cp -r "$D/demo" "$S/demo"
-    (cd "$S/demo" && FERRET_SRC="$WT" FERRET_RT="$S/$which/rt/runtime" timeout 600 sh ./demo.sh "$S/$which/bin/ferret" "$S/$which/libs") > "$S/demo.$which.log" 2>&1
+    tree=$WT; [ $which = clean ] && tree=$WTC
+    (cd "$S/demo" && FERRET_SRC="$tree" FERRET_RT="$S/$which/rt/runtime" timeout 600 sh ./demo.sh "$S/$which/bin/ferret" "$S/$which/libs") > "$S/demo.$which.log" 2>&1; drc=$?
+    if [ $drc -ge 2 ]; then  # some demos take the source tree as their first argument
+      rm -rf "$S/demo"; cp -r "$D/demo" "$S/demo"
+      (cd "$S/demo" && timeout 900 sh ./demo.sh "$tree" "$S/$which/bin/ferret" "$S/$which/libs") > "$S/demo.$which.log" 2>&1; drc=$?
+      git -C "$tree" clean -fdq >/dev/null 2>&1
+    fi
+    (exit $drc)
     echo "DEMO[$which]: exit=$? last: $(sed 's/\x1b\[[0-9;]*m//g' "$S/demo.$which.log" | grep -v '^$' | tail -2 | tr '\n' '|' | cut -c1-300)"
   done
 else
